@@ -1,8 +1,82 @@
-"""C16: documented deltas of the hardening codemods (filled in by checks/c16.py's table)."""
+"""C16: the edit a hardening codemod makes, as a delta on the token sequence of a file.
+
+The documented edit of a codemod on a seed is what the repository's own test expects for that seed (vendored in the
+corpus): delta(seed) = tokens deleted / inserted between the seed's input and its expected output.  A generic
+variation of the seed (nesting, layout, line endings) adds the same tokens before and after, so the rewrite of a variant
+must delete and insert exactly the same multisets of tokens, in place (the surviving tokens keep their order).
+"""
 from __future__ import annotations
 
+import difflib
+import io
+import tokenize
+from collections import Counter
 
-def checker(codemod: str):
-    from .checks import c16
 
-    return c16.checker(codemod)
+def tokens(text: str) -> list[str] | None:
+    out = []
+    try:
+        for tok in tokenize.generate_tokens(io.StringIO(text).readline):
+            if tok.type in (tokenize.NAME, tokenize.NUMBER, tokenize.STRING):
+                out.append(tok.string)
+            elif tok.type == tokenize.OP and tok.string in ("*", "**", "=", ".", "(", ")", "[", "]", ","):
+                # structure that carries argument order / starred arguments; commas and brackets are kept so that a
+                # re-ordering of arguments shows up as a deletion plus an insertion
+                if tok.string in ("*", "**"):
+                    out.append(tok.string)
+    except (tokenize.TokenError, IndentationError, SyntaxError):
+        return None
+    return out
+
+
+def _split(text: str) -> tuple[str, str]:
+    """(import statements, everything else): imports may be added, dropped and moved as whole lines, so they are
+    compared as a multiset; the rest of the file is compared in source order"""
+    imp, rest = [], []
+    for ln in text.split("\n"):
+        t = ln.strip()
+        (imp if (t.startswith("import ") or t.startswith("from ")) and "(" not in t else rest).append(ln)
+    return "\n".join(imp) + "\n", "\n".join(rest) + "\n"
+
+
+def delta(before: str, after: str):
+    bi, br = _split(before)
+    ai, ar = _split(after)
+    a, b = tokens(br), tokens(ar)
+    ia, ib = tokens(bi), tokens(ai)
+    if a is None or b is None or ia is None or ib is None:
+        return None
+    sm = difflib.SequenceMatcher(a=a, b=b, autojunk=False)
+    minus, plus = Counter(), Counter()
+    for tag, i1, i2, j1, j2 in sm.get_opcodes():
+        if tag in ("replace", "delete"):
+            minus.update(a[i1:i2])
+        if tag in ("replace", "insert"):
+            plus.update(b[j1:j2])
+    ca, cb = Counter(ia), Counter(ib)
+    minus.update({f"import:{k}": v for k, v in (ca - cb).items()})
+    plus.update({f"import:{k}": v for k, v in (cb - ca).items()})
+    return minus, plus
+
+
+def checker(expect: dict):
+    """expect: {rel: {"minus": {tok: n}, "plus": {tok: n}}}"""
+
+    def check(rel, pre_text, new_text, css):
+        want = expect.get(rel)
+        if want is None:
+            return None
+        d = delta(pre_text.replace("\r\n", "\n"), new_text.replace("\r\n", "\n"))
+        if d is None:
+            return None
+        minus, plus = d
+        wm, wp = Counter(want["minus"]), Counter(want["plus"])
+        if minus == wm and plus == wp:
+            return None
+        extra_minus = minus - wm
+        extra_plus = plus - wp
+        missing = (wm - minus) + (wp - plus)
+        return (f"edit differs from the documented one: additionally deleted {dict(extra_minus)}, additionally inserted {dict(extra_plus)}"
+                + (f", documented but not made {dict(missing)}" if missing else ""))
+
+    return check
